@@ -17,7 +17,7 @@ RULE = ("all ordered forests with <=N Sections x all assignments of names from {
         "every ordered pair for relative paths, every start x max_depth in {None,0..depth+1} x yield_self x "
         "filter for the three traversals, find / find_related over keys x types x all flag combinations; "
         "non-trivial = document with >= 2 Sections (pairs and depth limits exist)")
-NAMES = ["a", "ab", "a.b", "b"]
+NAMES = ["a", "ab", "a.b", "b", "A"]        # prefixes of each other, a dot, and a pair that differs only in case
 TYPES = ["t", "stim/white", "stim", "T"]
 WATCHDOG_S = 60
 FIND_MAX = 4
@@ -66,9 +66,13 @@ def gen_cases(tier):
 def build_case(case):
     if case["layer"] == "small":
         def props(i):
+            if i % 3 == 2:
+                return []             # Sections without Properties: an empty leaf Section is a falsy object
             ps = [{"name": "p", "values": ["v%d" % i]}]
             if i % 2 == 0:
                 ps.append({"name": "a", "values": [i, i + 1]})
+            if i % 4 == 1:
+                ps.append({"name": "P", "values": ["upper"]})      # differs from 'p' only in case
             return ps
         secs = docs.name_forest(case["shape"], names=case["names"], props=props)
         n = [0]
